@@ -114,3 +114,11 @@ def wone_of(*strategies):
     if len(uniq) == len(strategies):
         return st.one_of(*strategies)
     return st.sampled_from(index).flatmap(lambda i: uniq[i])
+
+
+def near_pow2(lo=15, hi=130):
+    """sizes around the thresholds a performance optimisation would pick (powers of two and round numbers, +-1)"""
+    from hypothesis import strategies as st
+    vals = [v for v in (8, 9, 15, 16, 17, 18, 31, 32, 33, 34, 40, 50, 63, 64, 65, 66, 70, 96, 100, 127, 128, 129, 130, 200, 256, 257)
+            if lo <= v <= hi]
+    return st.sampled_from(vals)
